@@ -560,7 +560,10 @@ def buffer_until_timeout(
     """
     if func is None:
         return partial(buffer_until_timeout, timeout=timeout)  # type: ignore
-    return wraps(func)(BufferAsyncCalls(func, timeout=timeout))  # type: ignore
+    # Don't copy the function's __dict__: it would silently overwrite the
+    # attributes of the buffer (e.g. timeout) with ones of the same name
+    buffer = BufferAsyncCalls(func, timeout=timeout)
+    return wraps(func, updated=())(buffer)  # type: ignore
 
 
 class BufferAsyncCalls(Generic[T]):
